@@ -19,7 +19,8 @@ Runs N workers; each has its own worktree of /verif under /tmp/vw/sweep<i> (own 
 its own scratch worktree of /repo under /tmp/sweepsrc/w<i>; all are removed at the end.  Results are appended to
 --out (JSON lines) as they arrive, so an interrupted sweep can be resumed (points already in the file are skipped).
 
-usage: tools/sweep.py [-j 4] [--select untied|tied|all] [--only FILE_SUBSTRING] [--limit N] [--out sweep.jsonl]
+usage: tools/sweep.py [-j 4] [--select untied|tied|all] [--only FILE_SUBSTRING] [--limit N] [--sample N --seed S]
+                      [--out sweep.jsonl]
 """
 import argparse
 import ast
@@ -136,6 +137,8 @@ def main():
     ap.add_argument('--select', default='untied')
     ap.add_argument('--only', default='')
     ap.add_argument('--limit', type=int, default=0)
+    ap.add_argument('--sample', type=int, default=0, help='random sample of this many points')
+    ap.add_argument('--seed', type=int, default=1)
     ap.add_argument('--src', default='/repo')
     ap.add_argument('--out', default=os.path.join(VERIF, 'sweep.jsonl'))
     a = ap.parse_args()
@@ -175,6 +178,9 @@ def main():
                     pts.append(pt)
     if a.limit:
         pts = pts[:a.limit]
+    if a.sample and a.sample < len(pts):
+        import random
+        pts = random.Random(a.seed).sample(pts, a.sample)
     print(f'{len(pts)} points to run, {len(done)} already done', flush=True)
     chunks = [pts[i::a.j] for i in range(a.j)]
     with cf.ProcessPoolExecutor(a.j) as ex:
